@@ -186,6 +186,16 @@ def structure(rows):
             "infinite_levels": sorted(set(rows[i][0] for i in infinite))}
 
 
+def relevant(rows):
+    """The analysers work on the series with 'irrelevant' run-outs dropped (documented in FatigueData): if there are two or more
+    pure run-out levels, all below the lowest level with a fracture, only the highest of them is kept."""
+    fr = set(r[0] for r in rows if r[2])
+    pure = sorted(set(r[0] for r in rows if not r[2]) - fr)
+    if len(pure) <= 1 or not fr or not pure[-1] < min(fr):
+        return rows
+    return [r for r in rows if not r[0] < pure[-1]]
+
+
 def label_structure(ctx, s):
     ctx.label("levels=%d" % min(len(s["levels"]), 7), "runouts=%s" % ("0" if s["n_runouts"] == 0 else "1-3" if s["n_runouts"] <= 3 else "4+"),
               "mixed_levels=%d" % min(len(s["mixed"]), 3), "finite_levels=%s" % (len(s["finite_levels"]) if len(s["finite_levels"]) < 3 else "3+"))
@@ -689,23 +699,37 @@ def likelihood_reference(case, ctx):
 # =====================================================================================
 # maximum-likelihood analysers
 # =====================================================================================
-# Decision recorded for expected finding F14 (DESIGN C18), from 40 probe data sets x 4-5 transformations (loads x 8, x 0.37,
-# x 2^-7, x 0.01, x 1000; cycles x 1000, x 0.01, x 2^-7; row reversal), every fmin call instrumented (warnflag, iterations):
-#  (a) likelihood has an interior maximum and is bounded (see _ml_class): warnflag 0 in every run, the mapped-back results
-#      agree at likelihood level to <= 1e-12 and parameter-wise to <= 2e-6.  No flat-ridge chaos: both levels are asserted
-#      (likelihood 1e-6 absolute, parameters rtol 1e-3).
-#  (b) TS free and the failure fraction in the infinite zone does not increase with load (cov(outcome, lg load) <= 0): the
-#      probit likelihood has NO maximum (sup for TS -> infinity).  fmin runs until maxfun (MaxLikeInf: 400, MaxLikeFull: 1e4
-#      evaluations), warnflag = 1 is ignored and the point where the budget ran out is returned as the estimate (TS = 1e11 ..
-#      1e20).  Runs on transformed data stop elsewhere: likelihood differs by 1e-4 .. 1e-3, TS by factors up to 1e4.
-#      This is the 'premature termination' branch of the design: genuine finding F14, class predicate no_interior_maximum().
-#  (c) the infinite zone holds run-outs only (no fracture at or below the highest run-out level): SD is not identified, the
-#      likelihood is flat (= 0 contribution) for every SD well above the run-outs.  Equal likelihood, arbitrary SD/ND along the
-#      Basquin line: here the parameter level demands more than an optimiser can give; only k_1, TN and the line lg ND + k lg SD
-#      are compared, SD/ND deviations are reported as label buckets.
-#  (d) collinear finite-zone fractures (exact data, two fractures): likelihood unbounded for TN -> 1, no ML estimate exists;
+# Decision recorded for expected finding F14 (DESIGN C18: "premature termination or flat ridge?").
+# Evidence: 110 distinct small data sets (9-19 tests) analysed by MaxLikeFull and 500 by MaxLikeInf with every fmin call
+# instrumented (warnflag, iterations), transformed runs (loads x 8, x 0.37, x 2^-7, x 0.01, x 1000; cycles x 1000, x 0.01, x 2^-7;
+# row reversal), and the supremum of the likelihood computed independently in the harness (the model separates: least squares
+# over all fractures for k_1 / line / TN, a concave two-parameter probit fit over the infinite zone for SD / TS).
+#  (a) Whenever a run reaches the supremum it does so to <= 1e-13 (MaxLikeFull) / <= 3e-7 (MaxLikeInf), and the mapped-back
+#      results of two such runs agree parameter-wise to <= 2e-6 / <= 8e-5.  There is no flat-ridge chaos among converged runs.
+#  (b) MaxLikeFull misses the supremum in about 20 % of the data sets whose maximum is perfectly well defined (10 of 47; deficit
+#      1e-2 .. 4.5 log-likelihood units; TS = 6e-16, 5e-35, 1.8e7, SD above every tested load ...).  In half of these runs fmin
+#      reports warnflag = 0 after a few hundred iterations (Nelder-Mead stalls on five raw, badly scaled parameters from a start
+#      with TS = TN**(1/k) ~ 1.005), in the other half maxfun = 1e4 is exhausted (warnflag = 1, ignored).  Which data sets fail
+#      changes under row permutation and unit scaling: that is the 7.6 % / 30 % of the design probe.  -> PREMATURE TERMINATION,
+#      genuine finding F14.  No input predicate separates the failing sets (it depends on the search path), so the class is
+#      defined on the outcome: "the estimate's log-likelihood, evaluated by the library's own (verified) likelihood function,
+#      is more than 1e-6 below the supremum".
+#  (c) TS optimised although the outcomes in the infinite zone do not determine it (probit ML scatter > 1e4, or the failure
+#      fraction does not increase with load, so that the likelihood has no maximum at all): MaxLikeInf exhausts its 400
+#      evaluations, MaxLikeFull its 1e4, and the point where the budget ran out (TS = 1e6 .. 1e23) is returned without a warning.
+#      Input predicate ts_undetermined().  Same root cause (convergence never checked): F14 for MaxLikeFull, F14_b for MaxLikeInf
+#      (for MaxLikeInf this input class is the only one in which it failed: 0 of 440 runs outside it).
+#  (d) The infinite zone holds run-outs only: SD is not identified, the likelihood is flat (= 0 contribution) for every SD well
+#      above the run-outs.  Equal likelihood, arbitrary SD/ND along the Basquin line: here the parameter level demands more than
+#      an optimiser can give; only k_1, TN and the line lg ND + k lg SD are compared.
+#  (e) Collinear finite-zone fractures (exact data, two fractures): likelihood unbounded for TN -> 1, no ML estimate exists;
 #      outside the domain of the ML sub-checks (discarded).  MaxLikeFull without run-outs fixes SD = 0, for which the likelihood
 #      is -inf everywhere: the search is a no-op that burns 1e4 evaluations and returns the Elementary values (covered there).
+#  (f) The likelihood depends on TS only through |lg TS|, so TS and 1/TS are the same model; `__make_parameters` only removes the
+#      sign, and MaxLikeFull does return TS < 1 (0.795 = 1/1.258 at an exact maximum).  In the probes a series and its transformed
+#      twin always ended on the same side; should they ever differ, the parameter level reports it (bucket TS_mirror).
+# Consequence: both levels stay asserted.  Level (1) |LL(mapped-back result) - LL(original result)| <= 1e-6 on the original data
+# (MaxLikeInf: plus the resolution of its absolute stop criterion, see _ll_tol); level (2) rtol 1e-3 on the identified parameters.
 LL_TOL = 1e-6
 P_RTOL = 1e-3
 
@@ -801,22 +825,46 @@ def _bucket(x, edges=(1e-12, 1e-9, 1e-6, 1e-4, 1e-3, 1e-2, 1e-1)):
     return ">%.0e" % edges[-1]
 
 
+def _ll_tol(name, rows):
+    """Likelihood-level tolerance.  1e-6 absolute (DESIGN).  MaxLikeInf's two-parameter search stops on scipy's default
+    absolute criterion xatol = 1e-4 in TS itself; for a small scatter this is coarse in s = lg(TS)/2.56: relative resolution
+    d = 1e-4 / (ln10 * TS * lg TS), and a relative error d in s costs up to about 2 n d^2 in log-likelihood (n tests, curvature
+    of log Phi).  That resolution is added (1e-7 for TS = 1.3, 3e-6 for TS = 1.1); observed deficits are 10x smaller."""
+    if name != "MaxLikeInf":
+        return LL_TOL
+    pf = probit_fit(rows)
+    if pf is None or pf["b"] <= 0:
+        return LL_TOL
+    lg_ts = _Z90 / pf["b"]
+    d = 1e-4 / (math.log(10.0) * 10.0 ** lg_ts * lg_ts)
+    return LL_TOL + 2.0 * pf["n"] * d * d
+
+
+def _fold(ts):
+    return 1.0 / ts if 0 < ts < 1 else ts
+
+
 def _ml_run(name, kind):
-    ll_of = ref_ll_infinite if name == "MaxLikeInf" else ref_loglike      # the function the analyser claims to maximise
+    inf_only = name == "MaxLikeInf"
+    ll_of = ref_ll_infinite if inf_only else ref_loglike      # the function the analyser claims to maximise
+    fid = "F14_b" if inf_only else "F14"
 
     def run(case, ctx):
-        rows = case["rows"]
+        full = case["rows"]
         c, perm = case.get("c"), case.get("perm")
-        s = structure(rows)
-        label_structure(ctx, s)
-        if collinear(rows):
+        label_structure(ctx, structure(full))
+        if collinear(full):
             ctx.skip("collinear finite zone: likelihood unbounded")
         index = index2 = None
         if kind == "perm" and case.get("keep_index"):
-            index = [10 + 3 * i for i in range(len(rows))]
+            index = [10 + 3 * i for i in range(len(full))]
             index2 = [index[j] for j in perm]
-        rows2 = transformed(rows, kind, c=c, perm=perm)
-        a = analyse(name, rows, index)
+        rows2 = transformed(full, kind, c=c, perm=perm)
+        a = analyse(name, full, index)
+        rows = relevant(full)            # what the analysers maximise the likelihood of
+        if len(rows) != len(full):
+            ctx.label("irrelevant_runouts_dropped")
+        s = structure(rows)
         if a[0] == "ValueError":
             b = analyse(name, rows2, index2)
             if b[0] != "ValueError":
@@ -824,41 +872,66 @@ def _ml_run(name, kind):
             ctx.tolerate("%s: ValueError %s" % (name, a[1][:50]))
             return
         ra = a[1]
+        # ---- the library's likelihood at its own estimate equals the reference (so that a deficit below is the search's fault)
+        lh = Likelihood(frame(full, index).fatigue_data.irrelevant_runouts_dropped())
+        npar = {k_: np.float64(v) for k_, v in ra.items()}
+        own = float(lh.likelihood_infinite(npar["SD"], npar["TS"])) if inf_only else \
+            float(lh.likelihood_total(npar["SD"], npar["TS"], npar["k_1"], npar["ND"], npar["TN"]))
+        la = ll_of(rows, ra)
+        if math.isfinite(la) and not abs(own - la) <= 1e-6 * (1.0 + abs(la)):
+            raise Violation("%s: library likelihood %r at its estimate %r, reference %r" % (name, own, ra, la), bucket="%s:likelihood_value" % name)
         # ---- the ML estimate is not worse than the Elementary estimate it starts from --------------------------------
-        el = analyse("Elementary", rows, index)[1]
+        el = analyse("Elementary", full, index)[1]
         ll_start, ll_a = ref_loglike(rows, el), ref_loglike(rows, ra)
         if math.isfinite(ll_start):
             ctx.label("start_finite")
             # MaxLikeInf moves (SD, ND) along the fitted line, which leaves the finite part unchanged up to rounding
-            # (|terms| ~ 10, n <= 40: 1e-9 absolute is ample); Nelder-Mead never returns a point worse than its start
+            # (|terms| ~ 10, n <= 40: 1e-9 relative is ample); Nelder-Mead never returns a point worse than its start
             if not ll_a >= ll_start - 1e-9 * (1.0 + abs(ll_start)):
                 raise Violation("%s: log-likelihood of the estimate %.9g is below that of the Elementary estimate %.9g" % (name, ll_a, ll_start),
                                 bucket="%s:worse_than_start" % name)
-        if name == "MaxLikeInf":
+        if inf_only:
             for p in ("k_1", "TN"):
                 if not close(ra[p], el[p], 1e-12):
                     raise Violation("MaxLikeInf: %s = %r differs from Elementary's %r" % (p, ra[p], el[p]), bucket="MaxLikeInf:%s" % p)
         # ---- equivariance -------------------------------------------------------------------------------------------------
-        nomax = ts_undetermined(rows, name)
-        if nomax:
+        undet = ts_undetermined(rows, name)
+        if undet:
             ctx.label("TS_undetermined")
-            if ctx.known("F14"):
+            if ctx.known(fid):
                 return
         b = analyse(name, rows2, index2)
         if b[0] == "ValueError":
             raise Violation("%s: %s-transformed series rejected (%s), original accepted" % (name, kind, b[1]), bucket="%s:guard_differs" % name)
         back = map_back(b[1], kind, c)
-        la, lb = ll_of(rows, ra), ll_of(rows, back)
+        lb = ll_of(rows, back)
+        tol = _ll_tol(name, rows)
+        ts_free = inf_only or (s["n_runouts"] > 0 and len(s["mixed"]) >= 2)
+        sup = ref_sup_infinite(rows, None if ts_free else ra["TS"]) + (0.0 if inf_only else ref_sup_finite(rows))
+        ga, gb = sup - la, sup - lb
+        missed = not (ga <= tol and gb <= tol)
+        ctx.label("deficit" + _bucket(max(ga, gb, 0.0)))
+        if missed and not inf_only:
+            ctx.label("supremum_missed")
+            if ctx.known(fid):
+                return
         dll = abs(la - lb) if (math.isfinite(la) and math.isfinite(lb)) else (0.0 if la == lb else math.inf)
-        devs = {p: (abs(back[p] - ra[p]) / max(abs(back[p]), abs(ra[p]), 1.0) if p == "k_1" else reldev(back[p], ra[p])) for p in PARAMS}
-        ctx.label("dll" + _bucket(dll), "pdev" + _bucket(max(devs.values())))
-        tag = "TS_undetermined" if nomax else kind
-        if not dll <= LL_TOL:
-            raise Violation("%s: %s%s: the result mapped back %r reaches log-likelihood %.9g on the original data, the original run %r reached %.9g"
-                            % (name, kind, "" if c is None else " x %r" % c, back, lb, ra, la), bucket="%s:%s:likelihood" % (name, tag))
-        ident = sd_identified(rows) or s["n_runouts"] == 0
+        if not dll <= tol:
+            tag = "TS_undetermined" if undet else "supremum_missed" if missed else kind
+            raise Violation("%s: %s%s: the result of the transformed series, mapped back, %r has log-likelihood %.9g on the original data; the "
+                            "original run %r has %.9g; supremum (harness) %.9g" % (name, kind, "" if c is None else " x %r" % c,
+                                                                                  {k_: back[k_] for k_ in PARAMS}, lb, {k_: ra[k_] for k_ in PARAMS}, la, sup),
+                            bucket="%s:%s:likelihood" % (name, tag))
+        # parameter level
+        ident = sd_identified(rows)
         if not ident:
             ctx.label("SD_not_identified")
+        devs = {p: (abs(back[p] - ra[p]) / max(abs(back[p]), abs(ra[p]), 1.0) if p == "k_1" else reldev(back[p], ra[p])) for p in PARAMS}
+        if (ra["TS"] < 1.0) != (back["TS"] < 1.0) and close(_fold(ra["TS"]), _fold(back["TS"]), P_RTOL):
+            # TS and 1/TS are the same model for the likelihood (only |lg TS| enters); the two runs ended on different sides
+            ctx.label("TS_mirror")
+            raise Violation("%s: %s: TS = %r for the original series but %r for the transformed one (mirror images, same likelihood)" % (
+                name, kind, ra["TS"], back["TS"]), bucket="%s:TS_mirror" % name)
         if ident:
             compare = list(PARAMS)
         else:
@@ -869,13 +942,12 @@ def _ml_run(name, kind):
                 l2 = math.log10(back["ND"]) + back["k_1"] * math.log10(back["SD"])
                 if not abs(l1 - l2) <= P_RTOL * (1.0 + abs(l1)):
                     raise Violation("%s: %s: knee points (SD=%r, ND=%r) and (SD=%r, ND=%r) are not on the same line" % (
-                        name, kind, ra["SD"], ra["ND"], back["SD"], back["ND"]), bucket="%s:%s:line" % (name, tag))
-        if s["n_runouts"] == 0 and kind == "load" and ctx.known("F18_a") and "ND" in compare:
-            compare.remove("ND")
+                        name, kind, ra["SD"], ra["ND"], back["SD"], back["ND"]), bucket="%s:%s:line" % (name, kind))
+        ctx.label("pdev" + _bucket(max(devs[p] for p in compare)))
         for p in compare:
             if not devs[p] <= P_RTOL:
                 raise Violation("%s: %s%s: %s = %r mapped back, original run %r (log-likelihoods agree to %.1e)" % (
-                    name, kind, "" if c is None else " x %r" % c, p, back[p], ra[p], dll), bucket="%s:%s:%s" % (name, tag, p))
+                    name, kind, "" if c is None else " x %r" % c, p, back[p], ra[p], dll), bucket="%s:%s:%s" % (name, kind, p))
         if len(s["levels"]) >= 3 and s["n_runouts"] >= 1:
             ctx.nontrivial()
     return run
